@@ -31,7 +31,7 @@ NEIGHBOURS = [
     ".hushlogin", ".kermrc", ".notar", ".where", ".wherex", "veronica.ctl", "veronicaXctl", "veronica.ctl2",
     "robots.txt", "robotsxtxt", "robots.txt2", "xrobots.txt", "nohup.out", "nohup.out.1", "gophermap2", "xgophermap",
     "note.abstract", "note.abstractx", "abstract", "note.keyboards", "note.keywords", "q.ask", "q.asked", "q.as", "m.3d", "m.3dx",
-    "m.3", ".hidden", ".dotdir/", "a.askdir/", "libdir/", "plain.txt", "zeta", "Alpha", "beta.c", "note", "q", "m",
+    "m.3", ".hidden", ".dotdir/", "a.askdir/", "libdir/", "plain.txt", "zeta", "Alpha", "beta.c", "note", "q", "m", "selfloop",
 ]
 PARENTS = ["", "d", "a.askb", "x~", ".cachex", "sub/lib", "libs"]
 # other configured ignore patterns (index 0 = the shipped one): literal blanks, '#', a character class, an anchored prefix,
@@ -131,6 +131,8 @@ def _spec(case):
         if n.endswith("/"):
             spec.append([pre + n[:-1], "d", None])
             spec.append([pre + n + "inside.txt", "f", "inside %s\n" % n])
+        elif n == "selfloop":
+            spec.append([pre + n, "l", n])  # a symlink to itself: cannot be served; may be listed or left out
         elif n.startswith("."):
             spec.append([pre + n, "f", "# dot file %s\n" % n])
             content[n] = "# dot file %s\n" % n
@@ -193,8 +195,8 @@ def check_case(case, ctx):
         kinds = [(n, os.path.isdir(os.path.join(os.fsencode(root), world.b(case["parent"]), os.fsencode(n)))) for n in on_disk]
         vis = L.visible(kinds, world.sel(dsel), ignorepatt, umn=umn)
         hidden_meta = {world.sel(h[0]) for h in case["hide"]} if umn else set()
-        want = [n for n in vis if n not in hidden_meta]
-        kept_out = [n for n, _ in kinds if n not in want]
+        want = [n for n in vis if n not in hidden_meta and n != "selfloop"]
+        kept_out = [n for n, _ in kinds if n not in want and n != "selfloop"]
 
         req = clients.encode("gopher", world.b(dsel))
         replies = []
@@ -213,7 +215,7 @@ def check_case(case, ctx):
         if r0.escaped is not None or not pr.ok or pr.problems:
             return [Fail("listing-failed", "listing of %r failed: %r %r" % (dsel, r0.response[:100], r0.logs[-1:]))]
         ents = clients.parse_gopher_menu(pr.body)
-        got = [e["target"][1] for e in ents if e["target"] and e["target"][0] == "local"]
+        got = [e["target"][1] for e in ents if e["target"] and e["target"][0] == "local" and not e["target"][1].endswith(b"/selfloop")]
         want_sels = [world.unsel(base + "/" + n) for n in want]
         missing = [s for s in want_sels if s not in got]
         extra = [s for s in got if s not in want_sels]
@@ -244,7 +246,8 @@ def check_case(case, ctx):
         r2 = drive.serve(cfg, clients.encode(f2, world.b(dsel)), tls=clients.FORMS[f2][0])
         p2 = clients.parse_response(f2, r2.response, expect_menu=True)
         if p2.ok and not p2.problems:
-            got2 = [e["target"][1] for e in clients.parse_listing(f2, p2) if e["target"] and e["target"][0] == "local"]
+            got2 = [e["target"][1] for e in clients.parse_listing(f2, p2) if e["target"] and e["target"][0] == "local"
+                    and not e["target"][1].endswith(b"/selfloop")]
             if got2 != got:
                 fails.append(Fail("set-differs:%s" % clients.FORMS[f2][1], "%s shows %r, gopher shows %r" % (f2, got2[:5], got[:5])))
         # everything kept out stays retrievable by exact selector
